@@ -2,8 +2,8 @@
 # tools/seed_collect.sh Cxx  : copy the seeded changes of a finished seeding agent into /verif/seeded
 # and confirm + evaluate each (tools/seedcheck.py). Removes the agent's worktree afterwards.
 p=$1
-wt=/tmp/wt_$p
-for d in $wt/seeded_out/[mn]*; do
+wt=${SEED_WT_PREFIX:-/tmp/wt_}$p
+for d in $wt/seeded_out/[mnp]*; do
   [ -f $d/patch.diff ] || continue
   n=$(basename $d)
   t=/verif/seeded/$p-$n
